@@ -1,8 +1,8 @@
 /-
   C11 — the pointer layer of opm/common/utility/Serializer.hpp: `shared_ptr` and the
   identity map `m_ptrmap` (Serializer.hpp, `shared_ptr(const PtrType&)`), threaded through the
-  combinators that can hold pointers (optional, vector, (unordered_)map with pointer-free key,
-  pair/tuple/class).  Pointer-free subtrees are delegated to the combinator model of
+  combinators that can hold pointers (optional, unique_ptr, vector, array, (unordered_)map with
+  pointer-free key, pair/tuple/class; not: variant and set of pointer-holding types).  Pointer-free subtrees are delegated to the combinator model of
   `Model/Serial.lean` (`GTy.flat`).
 
   What the code does (all three passes run the same traversal with a cleared `m_ptrmap`):
@@ -38,13 +38,15 @@ inductive GTy where
   | flat (t : Ty)
   | sptr (t : GTy)
   | opt (t : GTy)
+  | uptr (t : GTy)
   | vec (t : GTy)
+  | arr (k : Nat) (t : GTy)
   | map (o : Bool) (k : Ty) (w : GTy)
   | struct (ts : List GTy)
   deriving Repr, Inhabited
 
 /-- Objects.  `ptr a x`: a non-null `shared_ptr` whose `get()` is the address `a`, pointee `x`;
-`null`: `nullptr` / `nullopt`; `some`: engaged optional; `list`: vector, members, map entries
+`null`: `nullptr` / `nullopt`; `some`: engaged optional / non-null `unique_ptr`; `list`: vector, members, map entries
 (`list [flat key, value]`, in iteration order). -/
 inductive GVal where
   | flat (v : Val)
@@ -83,7 +85,9 @@ def gdflt : GTy → GVal
   | .flat t => .flat (dflt t)
   | .sptr _ => .null
   | .opt _ => .null
+  | .uptr _ => .null
   | .vec _ => .list []
+  | .arr k t => .list (List.replicate k (gdflt t))
   | .map _ _ _ => .list []
   | .struct ts => .list (gdflts ts)
 def gdflts : List GTy → List GVal
@@ -130,7 +134,12 @@ def gsize : GTy → Seen → GVal → Nat × Seen
     match gopt v with
     | Option.none => (szBool, S)
     | Option.some x => (szBool + (gsize t S x).1, (gsize t S x).2)
+  | .uptr t, S, v =>
+    match gopt v with
+    | Option.none => (szInt, S)
+    | Option.some x => (szInt + (gsize t S x).1, (gsize t S x).2)
   | .vec t, S, v => (szSizeT + (gsizeList (gsize t) S (gelems v)).1, (gsizeList (gsize t) S (gelems v)).2)
+  | .arr _ t, S, v => gsizeList (gsize t) S (gelems v)
   | .map _ k w, S, v =>
     (szSizeT + (gsizeList (entrySize k (gsize w)) S (gelems v)).1,
      (gsizeList (entrySize k (gsize w)) S (gelems v)).2)
@@ -153,8 +162,13 @@ def gpackW (wr : Nat → Nat) : GTy → Seen → GVal → Bytes × Seen
     match gopt v with
     | Option.none => ([boolByte false], S)
     | Option.some x => (boolByte true :: (gpackW wr t S x).1, (gpackW wr t S x).2)
+  | .uptr t, S, v =>
+    match gopt v with
+    | Option.none => (le szInt 0, S)
+    | Option.some x => (le szInt 1 ++ (gpackW wr t S x).1, (gpackW wr t S x).2)
   | .vec t, S, v =>
     (le64 (gelems v).length ++ (gpackList (gpackW wr t) S (gelems v)).1, (gpackList (gpackW wr t) S (gelems v)).2)
+  | .arr _ t, S, v => gpackList (gpackW wr t) S (gelems v)
   | .map _ k w, S, v =>
     (le64 (gelems v).length ++ (gpackList (entryPack k (gpackW wr w)) S (gelems v)).1,
      (gpackList (entryPack k (gpackW wr w)) S (gelems v)).2)
@@ -210,6 +224,19 @@ def gunpack (ρ : Nat → Nat) : GTy → GVal → PtrMap → Bytes → Except Er
       match gunpack ρ t (gdflt t) M r with
       | .error e => .error e
       | .ok (x, M1, r') => .ok (.some x, M1, r')
+  | .uptr t, tgt, M, bs =>
+    match rdNat szInt bs with
+    | .error e => .error e
+    | .ok (flag, r) =>
+      if flag = 1 then
+        match gunpack ρ t (gdflt t) M r with
+        | .error e => .error e
+        | .ok (x, M1, r') => .ok (.some x, M1, r')
+      else .ok (tgt, M, r)
+  | .arr k t, tgt, M, bs =>
+    match gunpackN (gunpack ρ t) (gdflt t) k (gelems tgt) M bs with
+    | .error e => .error e
+    | .ok (vs, M1, r') => .ok (.list vs, M1, r')
   | .vec t, tgt, M, bs =>
     match rdNat szSizeT bs with
     | .error e => .error e
@@ -250,7 +277,9 @@ def gwt : GTy → GVal → Bool
      | .ptr a x => decide (0 < a) && decide (a < 256 ^ szPtr) && gwt t x
      | _ => false)
   | .opt t, v => (match v with | .null => true | .some x => gwt t x | _ => false)
+  | .uptr t, v => (match v with | .null => true | .some x => gwt t x | _ => false)
   | .vec t, v => (match v with | .list vs => lenOk vs.length && vs.all (gwt t) | _ => false)
+  | .arr k t, v => (match v with | .list vs => decide (vs.length = k) && vs.all (gwt t) | _ => false)
   | .map o k w, v =>
     (match v with
      | .list vs => lenOk vs.length
@@ -271,7 +300,9 @@ def gfresh : GTy → GVal → Bool
   | .flat t, tgt => fresh t (gflat tgt)
   | .sptr _, tgt => (match tgt with | .null => true | _ => false)
   | .opt _, _ => true
+  | .uptr _, tgt => (match tgt with | .null => true | _ => false)
   | .vec t, tgt => (gelems tgt).all (gfresh t)
+  | .arr _ t, tgt => (gelems tgt).all (gfresh t)
   | .map _ _ _, tgt => (gelems tgt).isEmpty
   | .struct ts, tgt => gfreshs ts (gelems tgt)
 def gfreshs : List GTy → List GVal → Bool
